@@ -447,7 +447,7 @@ def cmd_check(prop, tier, base_seed, workers, runs_override=None, wall_cap=None,
             if not any(x["index"] == v["index"] and x["violation"]["kind"] == v["violation"]["kind"] for x in violations):
                 violations.append(v)
                 opt["violations"] += 1
-        if opt["digest_mismatches"]:
+        if opt["digest_mismatches"] and not violations:
             return 2
 
     # -------- determinism self-test: same seeds again, fresh interpreter, other PYTHONHASHSEED
@@ -465,7 +465,7 @@ def cmd_check(prop, tier, base_seed, workers, runs_override=None, wall_cap=None,
             if other.get(str(i)) != a:
                 selftest["mismatches"] += 1
                 print(f"NONDETERMINISM property={prop} index={i} {a} vs {other.get(str(i))}", file=sys.stderr)
-        if selftest["mismatches"]:
+        if selftest["mismatches"] and not violations:
             return 2
 
     # -------- triage violations: known finding or alarm (minimised, confirmed in a fresh process)
@@ -614,7 +614,11 @@ def cmd_check(prop, tier, base_seed, workers, runs_override=None, wall_cap=None,
         print(f"  violation kind={a['kind']} count={a['count']} steps {a['steps_before']}->{a['steps_after']}: "
               f"{a['detail'][:300]}")
         print(f"VIOLATION property={prop} replay={a['replay']}")
-    return 1 if alarms else 0
+    if alarms:
+        return 1
+    if opt["digest_mismatches"] or selftest["mismatches"]:
+        return 2  # event logs differed between interpreters and nothing else was found: not a result to believe
+    return 0
 
 
 def confirm_fresh(prop, path, kind, hashseed="777", optimise=False):
